@@ -470,6 +470,13 @@ def run_effective(ctx, di, history):
         elif history == 'forced-reloads':
             enf.load_rules(force_reload=True)
             enf.load_rules(force_reload=True)
+        elif history == 'option-flipped':
+            # enforce_new_defaults changed through oslo.config, nothing
+            # reloaded: whatever the rule set now means, its dump means the
+            # same
+            enf.conf.set_override('enforce_new_defaults', graceful,
+                                  group='oslo_policy')
+            enf.enforce('plain', {}, {'roles': []})
         live = enf.rules
         dumped = str(live)
         again = policy.Rules.load(dumped)
@@ -495,7 +502,7 @@ def run_effective(ctx, di, history):
 def cubes_effective(tier, seed):
     return [{'di': d, 'history': h} for d in range(4)
             for h in ('one-load', 'override-kept', 'override-removed',
-                      'forced-reloads')]
+                      'forced-reloads', 'option-flipped')]
 
 
 MUT_OPS = ['setitem', 'update', 'update-kw', 'pop', 'del', 'setdefault',
